@@ -930,3 +930,108 @@ func (c *nilCtx) freshlyStoredD(fn *ssa.Function, load *ssa.UnOp, d int) *ssa.Al
 	}
 	return al
 }
+
+// ---- S9: locals that are still nil ---------------------------------------------------------------------------
+//
+// A local interface or pointer variable that starts out nil (`var pool Node`) and is assigned on some paths only is,
+// in SSA, a phi with a nil-constant edge. S9 reports a dereference / method call of such a phi that is reachable from
+// the nil edge without re-entering the phi's block, under the assumption that every nil test of the phi says "nil".
+func (c *nilCtx) checkZeroLocals(fn *ssa.Function) (findings []nilFinding, examined int) {
+	type link struct {
+		phi   *ssa.Phi
+		preds map[*ssa.BasicBlock]bool // the edges of phi through which the nil flows
+	}
+	// chains of phis from a nil-constant edge (innermost first) to the dereferenced phi
+	var collect func(phi *ssa.Phi, seen map[*ssa.Phi]bool, d int) [][]link
+	collect = func(phi *ssa.Phi, seen map[*ssa.Phi]bool, d int) [][]link {
+		if seen[phi] || d > 4 {
+			return nil
+		}
+		seen[phi] = true
+		defer delete(seen, phi)
+		var out [][]link
+		for i, ed := range phi.Edges {
+			pred := phi.Block().Preds[i]
+			switch x := ed.(type) {
+			case *ssa.Const:
+				if x.IsNil() {
+					out = append(out, []link{{phi, map[*ssa.BasicBlock]bool{pred: true}}})
+				}
+			case *ssa.Phi:
+				for _, ch := range collect(x, seen, d+1) {
+					out = append(out, append(append([]link{}, ch...), link{phi, map[*ssa.BasicBlock]bool{pred: true}}))
+				}
+			}
+		}
+		return out
+	}
+	for _, ds := range c.derefSites(fn) {
+		top, ok := ds.Val.(*ssa.Phi)
+		if !ok || !isPtrOrIface(top.Type()) {
+			continue
+		}
+		for _, chain := range collect(top, map[*ssa.Phi]bool{}, 0) {
+			examined++
+			inner := chain[0]
+			var pred *ssa.BasicBlock
+			for b := range inner.preds {
+				pred = b
+			}
+			inChain := func(v ssa.Value) bool {
+				if mi, ok := v.(*ssa.MakeInterface); ok {
+					v = mi.X
+				}
+				for _, l := range chain {
+					if v == ssa.Value(l.phi) {
+						return true
+					}
+				}
+				return false
+			}
+			asm := func(cond ssa.Value) (bool, bool) {
+				b, ok := cond.(*ssa.BinOp)
+				if !ok || (b.Op != token.EQL && b.Op != token.NEQ) {
+					return false, false
+				}
+				if (inChain(b.X) && isNilConstV(b.Y)) || (inChain(b.Y) && isNilConstV(b.X)) {
+					return true, b.Op == token.EQL
+				}
+				return false, false
+			}
+			term := lastInstr(pred)
+			if term == nil {
+				continue
+			}
+			// not for the "no case matched" exit of a type switch: whether a value's dynamic type can be outside the
+			// listed cases is not visible here (the cache hands allocations.Set what allocations.Get returned)
+			if ifi, ok := term.(*ssa.If); ok {
+				if ex, ok := ifi.Cond.(*ssa.Extract); ok {
+					if ta, ok := ex.Tuple.(*ssa.TypeAssert); ok && ta.CommaOk {
+						continue
+					}
+				}
+			}
+			// the terminator of pred starts the path; a block holding a phi of the chain is entered only through the
+			// edge that carries the nil (entered otherwise, the variable has another value)
+			p := FindPath(PathQuery{Fn: fn, From: term, Assume: asm, Target: func(in ssa.Instruction) bool { return in == ds.In },
+				Edge: func(from *ssa.BasicBlock, succ int) bool {
+					to := from.Succs[succ]
+					for _, l := range chain {
+						if to == l.phi.Block() {
+							return l.preds[from]
+						}
+					}
+					if from == pred {
+						return false // from the starting block only the nil edge is followed
+					}
+					return true
+				}})
+			if p != nil {
+				src := &nilSource{Kind: "S9", At: inner.phi, Desc: "local " + top.Comment + " that is still nil (never assigned on this path)"}
+				findings = append(findings, nilFinding{fn, ds, src, p})
+				break
+			}
+		}
+	}
+	return
+}
